@@ -77,7 +77,7 @@ PROPS = {
     ),
     "C09": dict(
         level="proof",
-        specs=["specs.c09_loading"],
+        specs=["specs.c09_loading", "specs.c07_memory"],      # (c07_memory: reading a per-core word field - the state read that decides what counts as loaded - tagged C09)
         bounded=["bounded.c09_loading"],
         trusted=["bounded/_scamp.py: executable model of SC&MP's flood-fill, signal and memory commands (transcribed from the protocol documentation)"],
     ),
@@ -89,7 +89,7 @@ PROPS = {
     ),
     "C14": dict(
         level="proof",
-        specs=["specs.c14_probe", "specs.c03_route"],       # (c03_route: the enumeration steps of Machine, tagged C14 - the model lists exactly the working chips and links)
+        specs=["specs.c14_probe", "specs.c03_route", "specs.c07_memory"],       # (c03_route: the enumeration steps of Machine, tagged C14 - the model lists exactly the working chips and links)
         bounded=["bounded.c14_probe"],
         trusted=["wire layout of the SC&MP info reply (specs/c14_probe.py) and bounded/_scamp.py machine model"],
     ),
